@@ -126,13 +126,11 @@ func (m *Model) Inbound(remote *net.UDPAddr, ext string, now time.Duration) (int
 	return 0, "", "mapping expired"
 }
 
-
 // Mapping is the exported view of a mapping (used by the end-to-end model).
 type Mapping = mapping
 
 // Ext returns the external address of the mapping.
 func (m *mapping) Ext() string { return m.ext }
-
 
 // Holder returns the liveness (1 live, -1 boundary, 0 none/dead) of the
 // mapping that currently holds the external address, unless it is `except`.
